@@ -126,7 +126,7 @@ class DnsRecordDnskey(ParsableBase, Serializable):
             return PublicKey.from_params(PublicKeyParamsEcdsa(
                 point_x=key_parser['x'], point_y=key_parser['y'], named_group=named_group,
             ))
-        except ValueError as e:
+        except (ValueError, OverflowError) as e:
             six.raise_from(InvalidValue(key_parser['x'], cls, 'key'), e)
 
     @classmethod
